@@ -195,6 +195,44 @@ def _case(case):
             viol("hash-representation", case["group"],
                  f"representations hash differently: {hs}")
         return out, ("repr", len(hs))
+    if kind == "entry":
+        # the same fit requested in different ways: equal data and equal
+        # *effective* settings (the initial parameters that are estimated
+        # when none are given included) -> equal hashes
+        from nanite.fit import IndentationFitter
+        import copy
+        s = dict(BASES[case["base"]], model_key=case["model"])
+        hs = {}
+        hs["IndentationFitter(curve, **settings)"] = the_hash(fresh(), s)
+        c = fresh()
+        try:
+            c.fit_model(**copy.deepcopy(s))
+            hs["fit_model(**settings)"] = c.fit_properties.get("hash")
+            hs["IndentationFitter(fitted curve)"] = \
+                IndentationFitter(c).hash
+        except BaseException as e:
+            if isinstance(e, (KeyboardInterrupt, SystemExit)):
+                raise
+            hs["fit_model(**settings)"] = "raises:" + type(e).__name__
+        c = fresh()
+        for k, v in copy.deepcopy(s).items():
+            c.fit_properties[k] = v
+        hs["settings stored, then IndentationFitter(curve)"] = \
+            the_hash(c, {})
+        c = fresh()
+        try:
+            P = c.get_initial_fit_parameters(model_key=case["model"],
+                                             common_ancillaries=True,
+                                             model_ancillaries=True)
+            hs["explicit estimated parameters"] = the_hash(
+                fresh(), dict(s, params_initial=P))
+        except BaseException as e:
+            if isinstance(e, (KeyboardInterrupt, SystemExit)):
+                raise
+        if len(set(hs.values())) != 1:
+            viol("hash-unequal", f"{case['base']}:{case['model']}",
+                 f"one fit, requested in different ways: {hs}")
+        return out, ("entry", len(hs))
     raise RuntimeError("harness: unknown case kind")
 
 
@@ -273,6 +311,9 @@ def grid_cases():
         for lo in range(0, 240, 20):
             cases.append({"kind": "sample", "col": col,
                           "indices": list(range(lo, lo + 20))})
+    for base in BASES:
+        for mk in ("hertz_para", "hertz_cone", "sneddon_spher_approx"):
+            cases.append({"kind": "entry", "base": base, "model": mk})
     for base in ("defaults", "retract"):
         for g in REPR_GROUPS:
             cases.append({"kind": "repr", "base": base, "group": g})
